@@ -22,11 +22,12 @@ FIXED = [
  ("MTGraph::run panicked (or hung)", "C07", "mtsim: FailAt block returns Err on call k -> MTGraph::run unwinds via expect(\"block exit status\"), or never returns when an upstream FftFilterFloat (WaitForFunc) cannot see its reader is gone"),
  ("Graph::run could return while samples", "C06", "graphsim: VectorSource -> ... -> sink added in non-topological order: run() returns after the pass in which the source emitted and returned EOF; sink empty/short"),
  ("Append mode did not create", "C17", "iosim: Mode::Append on an absent file -> ENOENT although the documentation says it is created"),
- ("Repeat::again", "C16", "rig: Repeat::finite(0).again() underflows; FileSource/SigMFSource with finite(0) emit the data once and then panic"),
+ ("Repeat::again underflowed", "C16", "rig: Repeat::finite(0).again() underflows; FileSource/SigMFSource with finite(0) emit the data once and then panic"),
  ("VectorSource::first", "C16", "rig: VectorSource emitting its first repetition in several pieces tags every piece with VectorSource::first"),
  ("AuDecode panicked", "C15", "rig: AU header with data offset < 24 -> subtraction overflow / slice out of range"),
- ("Midpointer", "C15", "rig: Midpointer on a constant or one-element burst -> index out of bounds"),
- ("Wpcr", "C15", "rig: Wpcr on 4..6 samples -> unwrap on None in find_best_bin"),
+ ("Midpointer and Wpcr panicked", "C15", "rig: Midpointer on a constant / one-element / infinite burst -> index out of bounds; Wpcr on 4..6 samples -> unwrap on None in find_best_bin"),
+ ("HdlcDeframer lost valid frames", "C13", "rig: frame of exactly max_size bytes dropped; valid frame with a single/shared opening flag lost after an over-long or aborted frame (flag hunt restarted from all-ones history)"),
+ ("SigMFSource panicked when the data was shorter", "C15", "rig: archive truncated inside its data member -> assert_ne!(n, 0) in SigMFSource::work"),
  ("HdlcDeframer panicked", "C13", "rig: frame shorter than the CRC with min_size <= 1 and checksum on -> subtraction overflow"),
  ("TcpSource", "C14", "iosim: read shorter than the missing part of a split sample -> garbage sample / subtraction overflow; full output treated as EOF"),
 ]
